@@ -341,7 +341,7 @@ Theorem C03_initial_data_is_per_connection_refuted :
   exists t, build [None] (fun _ => 0%nat) [mkConn 0 1 2 0 f false 7; mkConn 0 2 2 0 f false 9] = BOk t /\
             t_cinit t = [(0%nat, [(-1, [(2%nat, 9)])])] /\
             map fst (t_pull t) = [1%nat; 2%nat].
-Proof. eexists. split; [vm_compute; reflexivity|]. split; vm_compute; reflexivity. Qed.
+Proof. exact Static.F17.initial_data_is_per_connection_refuted. Qed.
 Print Assumptions C03_initial_data_is_per_connection_refuted.
 
 (* known finding F14 on the model of SimRunner.get_output_for (compared literally with the source): the cache is scanned in
@@ -350,8 +350,7 @@ Print Assumptions C03_initial_data_is_per_connection_refuted.
    also at or before 5 *)
 Theorem C03_pulled_value_is_newest_by_time_refuted :
   exists outs t, (forall e, In e outs -> fst e <= t) /\ In (3, [(2%nat, 30)]) outs /\ get_output_for outs t = [(2%nat, 10)].
-Proof. exists [(3, [(2%nat, 30)]); (1, [(2%nat, 10)])], 5. split; [|split; [left; reflexivity|vm_compute; reflexivity]].
-       intros e [<-|[<-|[]]]; simpl; discriminate. Qed.
+Proof. exact Static.F17.pulled_value_is_newest_by_time_refuted. Qed.
 Print Assumptions C03_pulled_value_is_newest_by_time_refuted.
 
 (* known finding F11, its core on the model of the output cache (get_outputs' cache fill and get_output_for, both tied to the source):
